@@ -60,6 +60,9 @@ QUICK_T = ['CompositeMachine.cpp', 'OrthogonalDeferred.cpp', 'OrthogonalDeferred
            'Backmp11RootSm.cpp', 'Backmp11Context.cpp', 'Backmp11FunctorApi.cpp', 'TestDeferAndMessageQueue.cpp',
            'SetStates.cpp', 'TransitionSkipping.cpp']
 
+# test TUs whose g++ view (corpus G) is parsed in the quick tier, next to all witnesses
+QUICK_G = ['Backmp11Transitions.cpp', 'CompositeMachine.cpp']
+
 def corpus(tier):
     T = corpus_T()
     W = corpus_W()
